@@ -1,7 +1,7 @@
 CONSTANTS
   MaxLen = 5
   MaxReentry = 10
-  Envs = {"ok", "retry503", "close", "aterm", "lterm", "atermA", "atermB", "atermC", "atermD"}
+  Envs = {"ok", "retry503", "close", "aterm", "lterm", "atermA", "atermB", "atermC", "atermD", "rterm", "rtermT"}
   Defects = {}
 SPECIFICATION TraceSpec
 POSTCONDITION Accepted
